@@ -56,6 +56,7 @@ func (t *T0x1205) Parse(jtMsg *jt808.JTMessage) error {
 		return protocol.ErrBodyLengthInconsistency
 	}
 	start, end := 6, 6+28
+	t.AudioVideoResourceList = nil
 	for i := 0; i < int(t.AudioVideoResourceTotal); i++ {
 		curData := body[start:end]
 		t.AudioVideoResourceList = append(t.AudioVideoResourceList, T0x1205AudioVideoResource{
